@@ -743,6 +743,101 @@ theorem faces_ordered_numbering (b : Base) (z : List Rat) :
     cases flip <;>
       simp [verticalFaceOrdered, vertFaceCoords, v3xy, g1, g2, g3, g4]
 
+/-! ## input conditions evaluated by the driver, entry guards, repeated refinement -/
+
+/-- `tri_children_coords` with its hypothesis replaced by the DECIDABLE input condition `triCellOk`
+    (evaluated by the driver for every cell of every generated grid): if the stored faces of a cell
+    are the three edges of a triangle, the four index triples point at the geometric children of
+    its corners `triCorners`. -/
+theorem tri_children_coords_of_ok (nodes : List P2) (fn : List (Nat × Nat)) (c : Nat × Nat × Nat)
+    (h : triCellOk nodes.length fn c = true) :
+    (triChildren fn nodes.length c).map (triCoords (triNewNodes nodes fn))
+      = geomChildren (p2At nodes (triCorners fn c).1) (p2At nodes (triCorners fn c).2.1)
+          (p2At nodes (triCorners fn c).2.2) := by
+  obtain ⟨f0, f1, f2⟩ := c
+  simp only [triCellOk, Bool.and_eq_true, decide_eq_true_eq] at h
+  obtain ⟨⟨⟨⟨⟨⟨⟨⟨⟨⟨⟨h0, h1⟩, h2⟩, e0⟩, e1⟩, e2⟩, hpq⟩, hqs⟩, hsp⟩, hp⟩, hq⟩, hs⟩ := h
+  exact tri_children_coords nodes fn f0 f1 f2 _ _ _ h0 h1 h2 (isEdgeB_sound _ _ _ e0)
+    (isEdgeB_sound _ _ _ e1) (isEdgeB_sound _ _ _ e2) hpq hqs hsp hp hq hs
+
+example : triCellOk 3 [(0, 1), (0, 2), (1, 2)] (0, 2, 1) = true := by decide
+
+/-- `structured_refinement_contains` with the uniqueness hypothesis replaced by the DECIDABLE input
+    condition `uniqueB` (every fine centre lies in exactly one coarse cell — evaluated by the driver
+    on every case): then every fine cell is listed in exactly one column, the column of a cell that
+    contains its centre; in particular the final assertion of the code (all fine cells assigned)
+    holds. -/
+theorem sweep_total_of_unique {α β : Type} (inside : α → β → Bool) (cells : List α) (pts : List β)
+    (h : uniqueB inside cells pts = true) (i : Nat) (p : β) (hp : pts[i]? = some p) :
+    ∃ c cell, cells[c]? = some cell ∧ inside cell p = true ∧
+      (∃ col, (assign inside cells (enum pts))[c]? = some col ∧ i ∈ col) ∧
+      (∀ (c' : Nat) (col' : List Nat), c' ≠ c →
+        (assign inside cells (enum pts))[c']? = some col' → i ∉ col') := by
+  have hmem : p ∈ pts := List.mem_of_getElem? hp
+  simp only [uniqueB, List.all_eq_true, beq_iff_eq] at h
+  obtain ⟨c, cell, hc, hin, huniq⟩ := filter_length_one (fun c => inside c p) cells (h p hmem)
+  obtain ⟨h1, h2⟩ := (structured_refinement_contains inside cells pts).2 i p c cell hp hc hin huniq
+  exact ⟨c, cell, hc, hin, h1, h2⟩
+
+example : uniqueB inside1d [((0 : Rat), (1 : Rat)), (3, 1)] [(1 / 4 : Rat), 2, 3 / 4, 5 / 2] = true := by
+  decide +kernel
+
+/-- the DECIDABLE precondition `zOk` on the layer coordinates (evaluated by the driver) gives layer
+    heights of one strict sign, so no extruded cell is degenerate and `|z_last − z_first|` is the sum
+    of the `|heights|` -/
+theorem extrude_heights_sign (z : List Rat) (h : zOk z = true) :
+    (∀ d ∈ heights z, 0 < d) ∨ (∀ d ∈ heights z, d < 0) := by
+  simp only [zOk, Bool.or_eq_true, Bool.and_eq_true] at h
+  rcases h with h | h
+  · exact Or.inl (heights_pos_B z h.1)
+  · exact Or.inr (heights_neg_B z h.1)
+
+example : zOk [0, -1, -5 / 2] = true := by decide +kernel
+
+/-- ENTRY GUARDS of `structured_refinement`: a point grid gives the 1×1 identity; the sweep runs
+    exactly if the coarse grid has dimension ≥ 1, fewer cells than the fine grid and the same
+    dimension; everything else is an AssertionError. -/
+theorem sref_entry_spec (dimC dimF ncC ncF : Nat) :
+    (srefEntry dimC dimF ncC ncF = .point ↔ dimC = 0) ∧
+    (srefEntry dimC dimF ncC ncF = .sweep ↔ dimC ≠ 0 ∧ ncC < ncF ∧ dimC = dimF) ∧
+    (srefEntry dimC dimF ncC ncF = .assertion ↔ dimC ≠ 0 ∧ (ncF ≤ ncC ∨ dimC ≠ dimF)) := by
+  unfold srefEntry
+  by_cases h0 : dimC = 0
+  · simp [h0]
+  · by_cases h1 : ncC < ncF
+    · by_cases h2 : dimC = dimF
+      · subst h2
+        have h1' : ¬ ncF ≤ ncC := Nat.not_le.mpr h1
+        simp [h0, h1, h1']
+      · simp [h0, h1, h2]
+    · have h1' : ncF ≤ ncC := Nat.le_of_not_lt h1
+      simp [h0, h1, h1']
+
+/-- REPEATED REFINEMENT: a point of a child segment is the parent's point at the composed
+    parameter, which stays in `[s, t] ⊆ [0, 1]`; and the parent of the parent of fine cell `i` after
+    refining by `r1` and then `r2` is `i / (r2·r1)`. -/
+theorem refine1d_twice_nested (a b : V3) (s t u : Rat) (r1 r2 i : Nat) :
+    lerp (lerp a b s) (lerp a b t) u = lerp a b (s + u * (t - s)) ∧
+    (0 ≤ u → u ≤ 1 → s ≤ t → s ≤ s + u * (t - s) ∧ s + u * (t - s) ≤ t) ∧
+    parent1d r1 (parent1d r2 i) = i / (r2 * r1) := by
+  refine ⟨?_, ?_, ?_⟩
+  · apply V3.ext' <;> simp [lerp, V3.add, V3.smul] <;> ring
+  · intro h0 h1 hst
+    constructor <;> nlinarith
+  · unfold parent1d
+    exact Nat.div_div_eq_div_mul i r2 r1
+
+/-- the second refinement again refines the geometric spec, now of the cells of the first refined
+    grid (any ratios ≥ 1) -/
+theorem refine1d_twice_refines_spec (nodes : List V3) (cells : List (Nat × Nat)) (r1 r2 : Nat)
+    (h2 : 1 ≤ r2) :
+    List.Forall₂ (ChainOK (refine1d nodes cells r1).1 r2 (refine1dTwice nodes cells r1 r2).1)
+      (asCells (fineCells (refine1d nodes cells r1).2)) (refine1dTwice nodes cells r1 r2).2 :=
+  refine1d_refines_spec _ _ r2 h2
+
+example : (refine1dTwice [⟨0, 0, 0⟩, ⟨4, 0, 0⟩] [(0, 1)] 2 2).1
+    = [⟨0, 0, 0⟩, ⟨1, 0, 0⟩, ⟨2, 0, 0⟩, ⟨3, 0, 0⟩, ⟨4, 0, 0⟩] := by decide +kernel
+
 /-! ## non-vacuity of the hypotheses -/
 
 example : coupleLayers 2 10 2 [(0, 5), (1, 1), (0, 8), (1, 7)]
